@@ -13,3 +13,4 @@ CONSTANTS
   PruneNoStart = TRUE
 SPECIFICATION Spec
 INVARIANT Inv_Strict
+INVARIANT Inv_Repr
